@@ -87,12 +87,12 @@ def distance_cause(T, sup, sub) -> str:
     return f"other|{tw.kind(sup)},{tw.kind(sub)}"
 
 
-def check_variant(col, root, spec, tower, want_sample=False):
+def check_variant(col, root, spec, tower, want_sample=False, flavour="plain"):
     from mc import typeworld as tw
 
     spec = tuple(tuple(b) for b in spec)
     n = len(spec)
-    mod = tw.write_module(root, PKG, spec)
+    mod = tw.write_module(root, PKG, spec, flavour)
     cluster = tw.analyse(mod, tower=tower)
     T = cluster.type_system
     users = tw.user_infos(cluster, mod, n)
@@ -100,7 +100,7 @@ def check_variant(col, root, spec, tower, want_sample=False):
     types, labels = uni.types, uni.labels
     N = len(types)
     kinds = [tw.kind(t) for t in types]
-    tag = {"spec": [list(b) for b in spec], "tower": tower}
+    tag = {"spec": [list(b) for b in spec], "tower": tower, "flavour": flavour}
     base_rank = n * 1000 + sum(len(b) for b in spec) * 10
 
     # violations are aggregated locally (hundreds of thousands of pairs share a fingerprint):
@@ -123,7 +123,7 @@ def check_variant(col, root, spec, tower, want_sample=False):
             rank, what, involved, check, cnt = best[fp]
             if callable(what):
                 what = what()
-            col.violation(f"C25|{fp}", f"{tw.spec_name(spec)} tower={tower}: {what}",
+            col.violation(f"C25|{fp}", f"{tw.spec_name(spec, flavour)} tower={tower}: {what}",
                           dict(tag, check=check, types=[labels[i] for i in involved]), rank=rank)
             col.violations[f"C25|{fp}"]["n"] += cnt - 1
             col.count("violating_cases", cnt - 1)
@@ -131,7 +131,7 @@ def check_variant(col, root, spec, tower, want_sample=False):
             col.distinct("nontrivial", item)
 
     nontrivial: set = set()
-    name_of = tw.spec_name(spec)
+    name_of = tw.spec_name(spec, flavour)
 
     # ---- the three relations, complete matrices -------------------------------
     sub = [0] * N          # sub[i] bit j: is_subtype(Ti, Tj)
@@ -246,7 +246,7 @@ def check_variant(col, root, spec, tower, want_sample=False):
                 ka = "user" if la.startswith("C") else la
                 kb = "user" if lb.startswith("C") else lb
                 col.violation(f"C25|is_subclass|{ka},{kb}|tower={int(tower)}|got={got}",
-                              f"{tw.spec_name(spec)} tower={tower}: is_subclass({la}, {lb}) = {got}, "
+                              f"{tw.spec_name(spec, flavour)} tower={tower}: is_subclass({la}, {lb}) = {got}, "
                               f"issubclass(+tower) = {exp[i][j]}",
                               dict(tag, check="is_subclass", types=[la, lb]), rank=base_rank)
     # user classes must mirror the generated hierarchy itself (guards the generator)
@@ -291,7 +291,7 @@ def check_variant(col, root, spec, tower, want_sample=False):
     if want_sample:
         j = uni.index.get("C0")
         i = uni.index.get("U[C0|None]", any_i)
-        col.sample({"hierarchy": tw.spec_name(spec), "tower": tower, "types": N,
+        col.sample({"hierarchy": tw.spec_name(spec, flavour), "tower": tower, "types": N,
                     "example": {"T": labels[i], "S": labels[j],
                                 "is_subtype(S,T)": bool(sub[j] >> i & 1),
                                 "is_maybe_subtype(S,T)": bool(may[j] >> i & 1),
@@ -299,8 +299,9 @@ def check_variant(col, root, spec, tower, want_sample=False):
 
 
 def shard(col, root, variants, sample_first):
-    for k, (spec, tower) in enumerate(variants):
-        check_variant(col, root, spec, tower, want_sample=sample_first and k == 0)
+    for k, (spec, tower, *rest) in enumerate(variants):
+        check_variant(col, root, spec, tower, want_sample=sample_first and k == 0,
+                      flavour=rest[0] if rest else "plain")
 
 
 # ------------------------------------------------------------------ entry points
@@ -311,6 +312,8 @@ def run(ctx):
     n_max = 3 if ctx.quick else 4
     specs, skipped = tw.hierarchies(n_max)
     variants = [(s, tower) for s in specs for tower in (True, False)]
+    # parametrised bases (``class C1(C0[int])`` below a ``Generic[T]`` root): __orig_bases__ != __bases__
+    variants += [(s, True, "generic") for s in specs if len(s) == 3 and any(s)]
     # VERIF_SEED only rotates the work list (which shard does what, which samples are kept)
     rot = ctx.seed % len(variants)
     variants = variants[rot:] + variants[:rot]
@@ -339,4 +342,4 @@ def run(ctx):
 
 def replay(ctx, data):
     root = ctx.scratch("c25_")
-    check_variant(ctx.col, root, data["spec"], data["tower"])
+    check_variant(ctx.col, root, data["spec"], data["tower"], flavour=data.get("flavour", "plain"))
